@@ -8,14 +8,14 @@ TECH_SUM = "MIR value-flow summary (rustc_private facts, path-partitioned datafl
 
 CLAIMS = {
  "C01": ("other", "Structural necessary conditions of the v1 grammar decided from the MIR summaries of both entry points and their common field parser: constants, window/limit terms, single tokeniser on {SP,CR}, keyword and field provenance of every accepting outcome, leading-zero and sign guards dominating Ok, CRLF suffix dominating Ok, TCP4/TCP6 sibling symmetry; acceptance compared with the spec's acceptance condition at the level of token predicates in both directions (no over-rejection of canonical lines, every accepting outcome entails each conjunct).", "5/C01",
-         "NOT decided: acceptance <=> grammar for arbitrary strings (token contents; defects D6/D7 of DESIGN.md are invisible). Trusted: std axioms incl. the token-layout axiom of str::splitn and the stated leniencies of u16/Ipv4Addr/Ipv6Addr::from_str.", "MIR value-flow summaries with a token model (tok(split(text), k)); dominance of guards over accepting outcomes decided by conflict with the path condition"),
+         "NOT decided: acceptance <=> grammar for arbitrary strings (token contents: the IP-literal and decimal grammars are std's, by axiom); acceptance is compared with the spec condition at the level of token predicates and token layout only. Trusted: std axioms incl. the token-layout axiom of str::splitn and the stated leniencies of u16/Ipv4Addr/Ipv6Addr::from_str.", "MIR value-flow summaries with a token model (tok(split(text), k)); dominance of guards over accepting outcomes decided by conflict with the path condition"),
  "C08": ("other", "Display templates decoded from rustc's format_args encoding and compared piecewise with the canonical line per kind; argument order tied to the parser's token-to-field provenance; length bound by arithmetic over maximal widths; Header display echoes the stored window; FromStr delegation.", "5/C08",
          "NOT decided: the round trip itself (std Display/FromStr inverse is an axiom; parser acceptance of every canonical line is the undecided part of C01).", "format template decoding + MIR value-flow summaries compared with reference; formatter/parser cross-check"),
  "C15": ("other", "protocol() table, addresses_str offsets per kind under INV1, Display echo; the premises of INV1 are checked at every accepting outcome of the field parser.", "5/C15",
          "INV1 follows from its premises by the token-layout axiom of str::splitn (lemma in DESIGN.md App. C.7), not re-derived mechanically.", TECH_SUM),
  "C16": ("other", "Sibling agreement of the two v1 entry points against one window table; FromStr impls delegate; every field of the three to_owned functions is copied (Cow -> Cow::Owned of the same contents); 'static return types, no unsafe, no interior mutability; thorough tier: compile-fail witnesses.", "5/C16",
          "Agreement clause is structural (same window term, same field parser). Derived PartialEq is field-wise and Cow equality compares contents (axiom).", TECH_SUM + "; signature / type-walk queries; rustc compile-fail witnesses (thorough)"),
- "C18": ("other", "No-CR-at-107 => HeaderTooLong (terminal) in both entry points; after CR + 1 byte the result is a function of input[..CR+2]; default is_complete; Missing* only for absent tokens; and every incomplete outcome of the fully inlined entry points is tested for satisfiability together with 'the first CR is followed by a byte' using a token-layout theory of str::splitn (lengths and separator positions add up; first CR at a separator position). 13 outcome classes per entry point are reachable with a closed window on the current tree: genuine defects (family D6), each confirmed on the real library and listed by exact key in known_findings.json; the check prints KNOWN-FINDING for them and fails on any other class.", "5/C18 + 11",
+ "C18": ("other", "No-CR-at-107 => HeaderTooLong (terminal) in both entry points; after CR + 1 byte the result is a function of input[..CR+2]; default is_complete; Missing* only for absent tokens; and every incomplete outcome of the fully inlined entry points is tested for satisfiability together with 'the first CR is followed by a byte' using a token-layout theory of str::splitn (lengths and separator positions add up; first CR at a separator position). 17 outcome classes per entry point are reachable with a closed window on the current tree: genuine defects (family D6), each confirmed on the real library and listed by exact key in known_findings.json; the check prints KNOWN-FINDING for them and fails on any other class.", "5/C18 + 11",
          "Decided relative to the token-layout axiom of str::splitn as encoded in engine/layout.py; the known findings are not repaired because a repair means restructuring parse_header (not a small safe patch).", TECH_SUM + "; token-layout theory (linear facts over token lengths and separator positions) for closed-window reachability"),
  "C02": ("proof", "Every guarded outcome of the loop-free v2 parser, extracted from MIR, is compared with an exhaustive reference decision table (24 accepting rows with the exact decoded value, all rejecting row families); holds for every byte string relative to the std axioms.", "5/C02",
          "Trusted: rustc MIR/const-eval, the extractor and normaliser, std axioms (slice len/index/starts_with/==, u16::from_be_bytes, copy_from_slice, Ipv4Addr::new, Ipv6Addr::from). Panic freedom of the same function is C03.", TECH_SUM),
